@@ -220,13 +220,15 @@ PROPS.update({
                 "the forced variants so that buckets are over-full) x haystacks of lengths around 0, 16, 32, 48, 64, 96, "
                 "128, 256 (+512..4097 thorough) with five filler strategies (unused byte, low-nybble sharers, "
                 "high-nybble sharers, first-byte decoys, sprinkled pattern bytes) and matches planted at the start, "
-                "around multiples of 16/32, flush against the end, truncated at the end x spans. find_in and find_iter "
+                "around multiples of 16/32, flush against the end, truncated at the end x spans; plus a near-miss sweep: for "
+                "pattern lengths 1-40, 47-49, 63-72, 127-135 a copy with exactly one byte altered (first 4 bytes, middle, "
+                "each of the last 9) is the only candidate in the haystack. find_in and find_iter "
                 "compared with the leftmost oracle. Tallies '<impl>_m<mask>_{vector,fallback}' say whether the Teddy "
                 "code or the short-haystack Rabin-Karp fallback ran. Non-trivial: a match exists.",
         "assumptions": COMMON_ASSUMPTIONS,
         "stages": {"quick": NATIVE, "thorough": NATIVE},
         "floors": {"quick": dict({"evaluations": 3_000_000, "distinct_nontrivial": 1_000_000,
-                                  "vector_path_with_match": 700_000, "match_in_final_16_bytes": 150_000,
+                                  "vector_path_with_match": 700_000, "match_in_final_16_bytes": 150_000, "near_miss_haystacks": 20_000,
                                   "match_straddles_16_byte_boundary": 100_000},
                                  **{"%s_m%d_vector" % (i, m): 20_000
                                     for i in ("SlimSSSE3", "SlimAVX2", "FatAVX2") for m in (1, 2, 3, 4)}),
